@@ -30,7 +30,8 @@ THEOREMS = ["C18_loads", "C18_to_bytes", "C18_to_bytes_total", "C18_bound_quirk_
             "C18F_hex_pairs_parity", "C18F_ignore_letter", "C18F_ignore_too_long", "C18F_bad_line_rejects_file",
             "C18F_empty_file", "C18F_no_entries", "C18F_no_fuel", "C18F_nonvacuous_line",
             "C18F_nonvacuous_file", "C18F_nonvacuous_backtrack"]
-PROOF_HEADER = "From A816 Require Import Properties.C18 Properties.C18File."
+PROOF_HEADER = "From A816 Require Import Properties.C18 Properties.C18File Properties.C18Scope."
+THEOREMS += ["C18s_get_table_rule", "C18s_nearest", "C18s_nearest_encloses", "C18s_table_current_scope", "C18s_text_captures", "C18s_text_then_table", "C18s_compound_opens", "C18s_scope_opens", "C18s_macro_opens", "C18s_for_opens", "C18s_scoped_body", "C18s_macro_body_visible", "C18s_block_invisible", "C18s_scope_invisible", "C18s_macro_invisible", "C18s_for_invisible", "C18s_if_no_scope", "C18s_include_no_scope", "C18s_code_splice_no_scope", "C18s_tables_kept", "C18s_link_codegen", "C18s_embed_assemble", "C18s_embed_assemble_err", "C18s_initial_resolver_start", "C18s_embed_assemble_lorom", "C18s_embed_assemble_err_lorom", "C18s_passes", "C18s_text_node_layout", "C18s_text_node_layout_mini", "C18s_text_node_advance", "C18s_layout_program", "C18s_layout_lorom"]
 # model-tie modules whose correspondence is part of this property's check (parts of the model its theorems rest on)
 TIES = ['TBLFILE']
 RULE = ("generated tables (1-30 lines, single/multi-character texts with overlapping prefixes, 1-3-byte codes, duplicate "
@@ -45,6 +46,12 @@ PROVED_NOTE = ("proved for all tables and strings (induction): Model to_bytes = 
                "scope rule (innermost enclosing block that loaded a table before the text); pc_after advance = emitted length; "
                "the oracle's boolean tokeniser is equivalent to the inductive specification. Correspondence-only: that "
                "script/__init__.py, TableNode/TextNode and Scope.get_table compute what the model computes. "
+               "SCOPING ON THE REAL MODEL (Properties/C18Scope.v): get_table = the first table along the parent chain of the "
+               "current scope; .table changes the current scope only; .text captures the table when generated; blocks, named "
+               "scopes, macro applications (parent = the CALL SITE) and loop iterations open a scope whose tables are invisible "
+               "afterwards, .if branches / included files / spliced code blocks do not; the mini-language of C18_scope embedded in "
+               "the real AST is generated, resolved and emitted by the real model exactly as the mini-language says; a .text "
+               "advances the address by its emitted length, so a label behind it is right. "
                "FILE LOADING (Properties/C18File.v, model tie TBLFILE): the .tbl line regex is modelled with its backtracking "
                "semantics and proved deterministic (= a direct matcher); a rendered well-formed line/file loads exactly the "
                "entries it denotes (any hex case, ignore field, blanks, escaped newlines, CRLF, missing final newline), so every "
